@@ -1,5 +1,217 @@
-"""Runner part of C17 (filled in below)."""
+"""Runner half of C17: Runner.tla model-checked, its behaviours replayed on the real
+aiorunner/future_list, and the real scheduler() run under a scripted executor."""
+
+from __future__ import annotations
+
+import os
+import random
+
+from harness import common, scheddrv, sysdrv, tlc, trace
+from harness.checks import system as S
+
+PID = "C17"
+INV = ["ExecOnce", "DeliverOnce", "NothingLost", "StepsExact", "NeverTooMany", "CleanStop"]
+
+
+def _cfg(path, w, steps, c0, mayfail, live=True, cont=False):
+    with open(path, "w") as fh:
+        fh.write(f"SPECIFICATION {'FairSpec' if live else 'Spec'}\nCONSTANTS\n  W = {w}\n  Steps = {steps}\n  C0 = {c0}\n"
+                 f"  MayFail = {'TRUE' if mayfail else 'FALSE'}\n  ContinueOnFail = {'TRUE' if cont else 'FALSE'}\n")
+        for i in INV:
+            fh.write(f"INVARIANT {i}\n")
+        if live:
+            fh.write("PROPERTY Terminates\n")
+        fh.write("CHECK_DEADLOCK FALSE\n")
+
+
+def _m(x):
+    """TLC prints a function with domain 1..n as a tuple."""
+    return {i + 1: v for i, v in enumerate(x)} if isinstance(x, list) else x
+
+
+def script_of(beh):
+    """Runner.tla behaviour -> runner_only script; returns (script, expectations)."""
+    final = beh[-1][1]
+    fails = {u for u, v in _m(final["fut"]).items() if v == "exception"}
+    script, done, undelivered = [], [], []
+    for k in range(1, len(beh)):
+        label, post = beh[k]
+        pre = beh[k - 1][1]
+        name, args = tlc.label_parts(label)
+        if post["nsub"] > pre["nsub"]:
+            if name == "Deliver":
+                script.append(("deliver",))
+            u = post["nsub"]
+            script.append(("submit", u, u in fails))
+        elif name == "Deliver":
+            script.append(("deliver",))
+        if name == "Done":
+            u = _m(pre["running"])[args[0]]
+            script.append(("finish", u))
+    return script, fails
+
+
+def _runner_job(args):
+    idx, script, w, fails = args
+    out = scheddrv.runner_only(script, w)
+    problems = []
+    if out["hung"]:
+        problems.append("hung: the runner did not finish the behaviour and stop")
+    finished = [a[1] for a in script if a[0] == "finish"]
+    for u in finished:
+        if out["nexec"].get(u, 0) != 1:
+            problems.append(f"unit {u} executed {out['nexec'].get(u, 0)} times")
+    ndel = sum(1 for a in script if a[0] == "deliver")
+    got = [d for d in out["delivered"] if d is not None]
+    if not out["hung"]:
+        if len(got) != ndel:
+            problems.append(f"{len(got)} deliveries for {ndel} as_completed calls")
+        seen = set()
+        for d in got:
+            if d[0] == "result":
+                if d[1] in seen:
+                    problems.append(f"unit {d[1]} delivered twice")
+                if d[1] in fails:
+                    problems.append(f"unit {d[1]} failed but a result was delivered")
+                seen.add(d[1])
+        nexc = sum(1 for d in got if d[0] == "exception")
+        exp_exc = len([u for u in finished if u in fails][:10**9])
+        if nexc > exp_exc:
+            problems.append(f"{nexc} exceptions delivered, {exp_exc} units failed")
+        if not out["stopped"] or out.get("queue_left", 0) != 0:
+            problems.append("stop() left the loop thread or the queue alive")
+    problems += out["errors"]
+    return idx, problems, out
+
+
+def _sched_job(args):
+    idx, n, w, steps, c0, seed, fail = args
+    rnd = random.Random(seed)
+    root = os.path.join(S._CTX["work"], f"sd{os.getpid()}")
+    sysdrv.cleanup(root)
+    sysdrv.build_rundir(root, n, w, c0 if c0 else steps, seed=rnd.randrange(1000))
+
+    def outcomes(picked):
+        acc = rnd.random() < 0.6
+        rows = []
+        for e in picked.keys():
+            if e < 0:
+                rows.append([1] + [0] * (n - 1))
+            else:
+                reach = rnd.randrange(e + 1, n)
+                rows.append([0] + [1 if j <= reach else 0 for j in range(1, n)])
+        return acc, rows
+    order = [[rnd.randrange(w)] if rnd.random() < 0.7 else [rnd.randrange(w), 0] for _ in range(steps + 4)]
+    events, problems, infos = [], [], []
+    if c0:
+        ev, info = scheddrv.run_scheduler(root, n, w, c0, order, outcomes)
+        events += ev
+        infos.append(info)
+        if info["error"] or info["hung"]:
+            problems.append(f"first leg: {info['error'] or 'hung'}")
+    fail_at = [rnd.randrange(1, max(2, steps - c0))] if fail else []
+    ev, info = scheddrv.run_scheduler(root, n, w, steps, order, outcomes, fail_at=fail_at, restart_steps=steps if c0 else None)
+    events += ev
+    infos.append(info)
+    sysdrv.cleanup(root)
+    todo = steps - c0
+    if info["hung"]:
+        problems.append("scheduler() did not return (watchdog)")
+    elif info["error"]:
+        problems.append(f"scheduler() raised {info['error']['type']}: {info['error']['msg']}")
+    elif fail:
+        if not info["raised"]:
+            problems.append("a task failed but scheduler() did not receive its exception")
+        if info.get("stop_hung"):
+            problems.append("runner.stop() hangs after a failed task")
+    else:
+        if info["ndeliv"] != todo:
+            problems.append(f"{info['ndeliv']} results consumed for {todo} moves left to do")
+        if todo >= w:
+            if info["nsubmit"] != todo or info["ndeliv"] != todo:
+                problems.append(f"{info['nsubmit']} submissions and {info['ndeliv']} deliveries for {todo} requested moves")
+            if sorted(info["nexec"].values()) != [1] * todo:
+                problems.append(f"executions per unit {sorted(info['nexec'].values())} for {todo} moves")
+        if info.get("loop_thread_alive") or info.get("queue_left"):
+            problems.append("runner not shut down cleanly")
+    return idx, (trace.encode_trace(events) if events and not fail else []), problems, {"n": n, "workers": w, "steps": steps, "c0": c0, "seed": seed, "fail": fail}
 
 
 def run(sc, tier):
-    return None
+    chk = sc.chk
+    q = tier == "quick"
+    grid = [(1, 3, 0), (2, 4, 0), (2, 4, 1), (3, 5, 2)] if q else \
+        [(w, s, c) for w in (1, 2, 3, 4) for s in (2, 4, 6, 8) for c in (0, 1, 3, 7) if s - c >= 1 and s - c <= 6]
+    behs_all = []
+    for (w, s, c0) in grid:
+        cfg = os.path.join(sc.work, f"Runner_{w}_{s}_{c0}.cfg")
+        _cfg(cfg, w, s, c0, True, live=(s - c0) * w <= 12)
+        try:
+            res = tlc.run_tlc("Runner", cfg, timeout=1500, allow_violation=True)
+        except tlc.TLCError as exc:
+            chk.machinery(str(exc)[:1500])
+            continue
+        chk.add_tlc(res, {"W": w, "Steps": s, "C0": c0, "MayFail": True})
+        if not res["ok"]:
+            chk.machinery(f"TLC refuted {res['violated']} on Runner.tla W={w} Steps={s} C0={c0}")
+        # the runner on its own: a delivered exception is consumed and the caller goes on
+        _cfg(cfg, w, s, c0, True, live=(s - c0) * w <= 12, cont=True)
+        try:
+            res = tlc.run_tlc("Runner", cfg, timeout=1500, allow_violation=True)
+            chk.add_tlc(res, {"W": w, "Steps": s, "C0": c0, "MayFail": True, "ContinueOnFail": True})
+            if not res["ok"]:
+                chk.machinery(f"TLC refuted {res['violated']} on Runner.tla (ContinueOnFail) W={w} Steps={s} C0={c0}")
+        except tlc.TLCError as exc:
+            chk.machinery(str(exc)[:1500])
+        # behaviours for the replay
+        _cfg(cfg, w, s, c0, True, live=False, cont=True)
+        out = os.path.join(sc.work, f"rsim_{w}_{s}_{c0}")
+        os.makedirs(out, exist_ok=True)
+        num = 6 if q else 40
+        tlc.run_tlc("Runner", cfg, workers=2, simulate=f"file={out}/tr,num={num}", depth=60, seed=chk.seed + 3, coverage=False,
+                    timeout=600, allow_violation=True)
+        for b in tlc.read_sim_traces(out):
+            behs_all.append((w, b))
+        common.rmtree(out)
+    jobs = []
+    for i, (w, b) in enumerate(behs_all):
+        script, fails = script_of(b)
+        jobs.append((i, script, w, fails))
+    results = common.pmap(_runner_job, jobs, chunksize=2)
+    for idx, problems, out in results:
+        chk.evaluated(1)
+        chk.traces(1)
+        chk.nontrivial(("runner", str(jobs[idx][1])))
+        for p in problems:
+            kind = p.split(":")[0].split(" ")[0]
+            chk.violation(f"runner:{kind}", f"aiorunner/future_list: {p}",
+                          {"property": PID, "binding": "B", "spec": "Runner", "script": jobs[idx][1], "workers": jobs[idx][2], "observed": out,
+                           "clause": "ExecOnce / DeliverOnce / CleanStop"})
+    if jobs:
+        chk.sample({"kind": "Runner.tla behaviour replayed on the real aiorunner", "script": jobs[0][1]})
+    print(f"  runner behaviours replayed: {len(jobs)}", flush=True)
+    # the real scheduler() under the scripted executor
+    rnd = random.Random(chk.seed + 41)
+    combos = []
+    for (w, s, c0) in ([(1, 4, 0), (2, 5, 0), (3, 6, 0), (2, 6, 2), (3, 7, 3), (2, 4, 0)] if q else
+                       [(w, s, c) for w in (1, 2, 3) for s in (3, 5, 8) for c in (0, 1, 2, 4) if s - c >= w]):
+        n = max(3, w + 1)
+        combos.append((len(combos), n, w, s, c0, rnd.randrange(10 ** 6), False))
+    for (w, s, c0) in ([(2, 5, 4), (3, 6, 4)] if q else [(2, 5, 4), (3, 6, 4), (3, 6, 5), (2, 3, 2)]):   # fewer moves left than workers
+        combos.append((len(combos), max(3, w + 1), w, s, c0, rnd.randrange(10 ** 6), False))
+    for (w, s) in ([(2, 5)] if q else [(1, 4), (2, 5), (3, 6)]):
+        combos.append((len(combos), max(3, w + 1), w, s, 0, rnd.randrange(10 ** 6), True))
+    results = common.pmap(_sched_job, combos)
+    groups = {}
+    for idx, enc, problems, spec in results:
+        chk.evaluated(1)
+        chk.nontrivial(("sched", spec["workers"], spec["steps"], spec["c0"], spec["fail"]))
+        for p in problems:
+            chk.violation(f"scheduler:{p.split(' ')[0]}", f"scheduler() with W={spec['workers']} steps={spec['steps']} restart at {spec['c0']}: {p}",
+                          {"property": PID, "binding": "B", "spec": "Runner", "run": spec, "observed": p, "clause": "StepsExact"})
+        if enc:
+            groups.setdefault((spec["n"], spec["workers"]), ([], []))
+            groups[(spec["n"], spec["workers"])][0].append(enc)
+            groups[(spec["n"], spec["workers"])][1].append({"binding": "B", "scheduler_run": spec})
+    sc.validate_multi(groups)
+    print(f"  scheduler() runs under the scripted executor: {len(combos)}", flush=True)
